@@ -226,6 +226,8 @@ class Check:
         )
         for rid, (n, okc) in sorted(self.per_rule.items()):
             print(f"[{self.prop}]   {rid}: {okc}/{n}  {self.rule_text.get(rid, '')[:110]}")
+        for r_, toks in sorted(self.shape_lost.items()):
+            self.notes.append(f"{r_}: shape obligations reported because the function lost {sorted(toks)[:8]} relative to the reference snapshot")
         if self.undecided:
             self.notes.append(
                 f"{len(self.undecided)} shape obligation(s) undecided: the construct was rewritten in a form the rule does not "
